@@ -7,6 +7,9 @@ import (
 	"bytes"
 	"context"
 	"fmt"
+	"io/fs"
+	"os"
+	"path/filepath"
 	"strings"
 	"sync"
 
@@ -38,6 +41,9 @@ type Lake struct {
 	Eng  storage.Engine
 	Root *lake.Root
 	API  lakeapi.Interface
+	// LoadVia, if set, replaces API.Load (the service monitor loads through
+	// raw HTTP with a chosen content type).
+	LoadVia func(ctx context.Context, zctx *zed.Context, pool ksuid.KSUID, branch string, vals []zed.Value) (ksuid.KSUID, error)
 }
 
 func wrap(root *lake.Root, eng storage.Engine) *Lake {
@@ -95,6 +101,9 @@ func (s *sliceReader) Read() (*zed.Value, error) {
 }
 
 func (l *Lake) Load(ctx context.Context, zctx *zed.Context, pool ksuid.KSUID, branch string, vals []zed.Value) (ksuid.KSUID, error) {
+	if l.LoadVia != nil {
+		return l.LoadVia(ctx, zctx, pool, branch, vals)
+	}
 	return l.API.Load(ctx, zctx, pool, branch, &sliceReader{vals: vals}, api.CommitMessage{Author: "verif"})
 }
 
@@ -283,3 +292,28 @@ var Msg = api.CommitMessage{Author: "verif"}
 
 // NewZctx returns a fresh type context.
 func NewZctx() *zed.Context { return zed.NewContext() }
+
+// FromAPI wraps an existing lake API handle (local or remote).
+func FromAPI(a lakeapi.Interface) *Lake { return &Lake{API: a, Root: a.Root()} }
+
+// DirBacking exposes a lake directory on disk through the Backing interface,
+// mapping it onto the harness's canonical root path.
+type DirBacking struct{ Dir string }
+
+func (d DirBacking) Get(path string) ([]byte, bool) {
+	rel := strings.TrimPrefix(path, RootURI.Path)
+	b, err := os.ReadFile(filepath.Join(d.Dir, rel))
+	return b, err == nil
+}
+
+func (d DirBacking) Paths() []string {
+	var out []string
+	filepath.WalkDir(d.Dir, func(p string, e fs.DirEntry, err error) error {
+		if err == nil && !e.IsDir() {
+			rel, _ := filepath.Rel(d.Dir, p)
+			out = append(out, RootURI.Path+"/"+filepath.ToSlash(rel))
+		}
+		return nil
+	})
+	return out
+}
